@@ -247,3 +247,8 @@ def expected(model):
     if model["title"] is not None:
         exp[("title",)] = Exact(model["title"])
     return exp
+
+
+# Relative tolerance of the wavefunction comparison: coordinates may be given in angstrom (CODATA drift of the conversion factor,
+# 7e-10 relative, acts on tight functions through 2 alpha r) and numbers are printed with 12-13 significant digits.
+WFN_REL_TOL = 2e-5
